@@ -64,10 +64,10 @@ PROPS = {
         'assumptions': [], 'trusted_base': [], 'not_decided': [],
     },
     'C19': {
-        'technique': 'Verus contracts on the extracted text of InterporationWeight setters/getters and Weights::check_length; Kani harnesses for Weights::new and VoiceSet::new',
-        'level_text': 'unbounded proof (any number of voices/streams) that an update is accepted iff sum_ok && len == nvoices, writes only the addressed vector, and leaves *self unchanged on rejection; Weights::new / VoiceSet::new bounded by Kani',
-        'level_note': 'sum_ok is tied to |sum-1| <= EPSILON by Kani for lengths 0..3 only (bounded); VoiceSet::new on 2 voices with symbolic metadata (bounded); string-valued metadata fields compared as constants',
-        'verus': ['weights'],
+        'technique': 'Verus contracts on the extracted text of InterporationWeight setters/getters, Weights::check_length and VoiceSet::new; Kani harnesses for Weights::new, the zip/all hole and API-level update histories',
+        'level_text': 'unbounded proof (any number of voices/streams) that an update is accepted iff sum_ok && len == nvoices, writes only the addressed vector, and leaves *self unchanged on rejection; that VoiceSet::new rejects the empty list with EmptyVoice and accepts a list iff every voice has the first one\'s global metadata, stream count and per-stream metadata',
+        'level_note': 'sum_ok is tied to |sum-1| <= EPSILON by Kani for lengths 0..3 only (bounded); derived PartialEq of the metadata structs is an uninterpreted relation in Verus (field-wise equality of #[derive(PartialEq)] assumed; CBMC cannot run it on Voice metadata); the zip/all hole is bounded-checked on 2 streams',
+        'verus': ['weights', 'voiceset'],
         'assumptions': ['Weights::new contract (Ok => stored == input && sum_ok; Err => !sum_ok) assumed in Verus, checked by Kani for len <= 3'],
         'trusted_base': [], 'not_decided': [],
     },
@@ -109,10 +109,10 @@ PROPS = {
         'not_decided': ['whole-file quantifier (any byte sequence)', 'allocation bounds', 'pdf_len arithmetic overflow in parse_data_section', 'deserialize_hashmap key slicing'],
     },
     'C15': {
-        'technique': 'Kani harnesses on StreamParameter::apply_additional_half_tone + Verus contract on Engine::generator',
-        'level_text': 'bounded (2 states x 2 windows) but fully symbolic values: only the static log-F0 mean of each state changes, to clamp(mean + h*HALF_TONE); h = 0 is the bitwise identity; unbounded proof that the shift is applied to stream 1 only, before MLPG, and reaches neither durations nor the other streams',
-        'level_note': 'mean-level claim; the trajectory-level shift after MLPG (exact arithmetic only) is not decided',
-        'verus': ['engine'],
+        'technique': 'Verus contracts on the extracted text of StreamParameter::apply_additional_half_tone and Engine::generator; Kani harnesses pin the float values',
+        'level_text': 'unbounded proof (any number of states and windows) that only the static log-F0 mean of each state changes, to clamp(mean + h*HALF_TONE, MIN_LF0, MAX_LF0), that h = 0 is the identity, and that the shift is applied to stream 1 only, before MLPG, reaching neither durations nor the other streams; Kani: the same on 2 states x 2 windows bit-precisely',
+        'level_note': 'mean-level claim; the trajectory-level shift after MLPG (exact arithmetic only) is not decided; in Verus IEEE ops and f64::clamp are uninterpreted (values pinned by Kani on 1-2 states with h from 6 constants)',
+        'verus': ['engine', 'halftone'],
         'assumptions': [], 'trusted_base': [],
         'not_decided': ['log-F0 of every voiced FRAME shifts by h*ln2/12 after MLPG (holds in exact arithmetic only)', 'HALF_TONE is the double nearest ln2/12 (ground computation, not a proof)'],
     },
@@ -129,15 +129,15 @@ PROPS = {
         'technique': 'Verus contract on the extracted text of Mask::boundary_distances; Kani harnesses on Mask::{create,fill} and MlpgAdjust::create (argument capture by stubbing calc_wuw_and_wum)',
         'level_text': 'unbounded proof of the boundary distances (voiced run lengths to the nearest unvoiced frame or edge) for any number of frames; bounded: frame -> state expansion, unvoiced frames carry NODATA, dynamic windows at an edge get zero precision',
         'level_note': 'PARTIAL: that calc_wuw_and_wum accumulates W\'U^-1W and that LDL + substitutions solve the normal equations to rounding accuracy is NOT decided (real-number linear algebra; no float semantics in Verus, symbolic products intractable in CBMC)',
-        'verus': ['mask'],
+        'verus': ['mask', 'window'],
         'assumptions': [], 'trusted_base': [],
         'not_decided': ['maximum-likelihood optimality: W\'U^-1W c = W\'U^-1 mu to rounding accuracy', 'zero-precision rule next to unvoiced frames (only the utterance-edge case is checked)'],
     },
     'C07': {
-        'technique': 'Kani loop-free harnesses on Excitation::{start,get,end}, Random::rnd, Mseq::next, ring buffer step',
-        'level_text': 'complete (loop-free, full symbolic f64 domain within the stated envelope 2 <= T0 <= 4800) proof of the pulse-train step contract and its invariant 0 <= counter < T0; LCG / M-sequence recurrences for all states; one ring-buffer step for nlpf = 3',
+        'technique': 'Kani loop-free harnesses on Excitation::{start,get,end}, Random::rnd, Mseq::next; Verus contracts on the extracted text of RingBuffer and Excitation::{voiced_frame, unvoiced_frame}',
+        'level_text': 'complete (loop-free, full symbolic f64 domain within the stated envelope 2 <= T0 <= 4800) proof of the pulse-train step contract and its invariant 0 <= counter < T0; LCG / M-sequence recurrences for all states; unbounded proof (any low-pass order) that one voiced sample adds noise*(delta - h[i]) + pulse*h[i] to ring-buffer slot index+i (mod n) and one unvoiced sample adds the noise at the centre slot; Kani: one full get() step for nlpf = 3',
         'level_note': 'PARTIAL: noise statistics (zero mean, unit variance, whiteness) and exp/sqrt accuracy are not decided; sqrt is an uninterpreted stub; the glide increment is checked as dataflow only; pitch clamp in Vocoder::synthesize not covered',
-        'verus': [],
+        'verus': ['ringbuf'],
         'assumptions': ['sqrt returns a finite non-negative value (stub)'], 'trusted_base': [],
         'not_decided': ['zero-mean unit-variance white noise', 'pulse height equals sqrt(T0) numerically (libm)', 'period from log-F0 with clamp to [ln 20, ln 20000] in Vocoder::synthesize', 'linear glide value (p - prev)/fperiod'],
     },
